@@ -137,7 +137,7 @@ CHECKS["C14"] = ("Proof: C14.typed_listing_roundtrip / program_roundtrip — pro
                  "repaired early-match branch, closure of decode over segments, whole-table shape lemma by kernel evaluation. Tie/oracle: "
                  "printable listings, keyword pairs, all strings <= 4/5 over 9 symbols through the real tool vs model, decoded by the Lean "
                  "detokenizer and compared with the source.", D, "7 C14")
-CHECKS["C18"] = ("Proof (PARTIAL by nature): tape reader visits at most len/7 blocks for every byte string; the chain walk returns a "
+CHECKS["C18"] = ("Proof (PARTIAL by nature): C18.disk_confined_four_sides — every path disk extract writes is destination/sideK/<entry> with K < 4 and an entry name that is not empty, '.', '..' and holds no '/' or NUL (tape: Tape.openable), for EVERY byte string given as archive; tape reader visits at most len/7 blocks for every byte string; the chain walk returns a "
                  "duplicate-free chain of at most 161 entries for every table; catalog scan is 112 slots; C18.disk_confined / tape_confined — for "
                  "EVERY byte string given as archive, every path extract writes is destination(/sideN)/name with no '/' or NUL and the only "
                  "directories created are destination/sideN; disk_list_readonly — listing any bytes writes nothing. CPU time and memory are observed, not proved: real list/extract on "
